@@ -55,6 +55,8 @@ class Interp:
         self.fi = fi
         self.cfg = CFG(fi.node)
         self.helper_envelopes = helper_envelopes
+        # optional: summaries of helpers that return a tuple -- call -> per position (maybe_none, envelopes | None)
+        self.helper_tuples: Callable[[ast.Call], list[tuple[bool, list[Envelope] | None]] | None] | None = None
         self.max_states = max_states
         self.params = {a.arg for a in list(fi.node.args.posonlyargs) + list(fi.node.args.args) + list(fi.node.args.kwonlyargs)}  # type: ignore[attr-defined]
         self.assigned_once_or_never = self._never_reassigned()
@@ -220,7 +222,7 @@ class Interp:
         return [(None, s)]
 
     def kill(self, st: dict, var: str) -> None:
-        for pre in ("nn:", "tr:", "lk:", "vs:", "st:", "ex:", "d:"):
+        for pre in ("nn:", "tr:", "lk:", "vs:", "st:", "ex:", "d:", "mn:"):
             st.pop(pre + var, None)
         # expressions that mention var are stale
         for k in [k for k in st if k.startswith("ex:")]:
@@ -243,6 +245,17 @@ class Interp:
             else:
                 for nm in _store_names(target):
                     self.kill(st, nm)
+                # (content, error) = self._helper(...): a position that is always None-or-one-envelope binds that envelope,
+                # flagged maybe-None until a test excludes None
+                summ = self.helper_tuples(value) if (self.helper_tuples is not None and isinstance(value, ast.Call)) else None
+                if summ is not None and len(summ) == len(target.elts):
+                    for t, (maybe_none, envs) in zip(target.elts, summ):
+                        if isinstance(t, ast.Name) and t.id in self.relevant and envs is not None and len(envs) == 1:
+                            st[f"d:{t.id}"] = envs[0]
+                            if maybe_none:
+                                st[f"mn:{t.id}"] = True
+                            else:
+                                st[f"nn:{t.id}"] = "NN"
             return
         if not isinstance(target, ast.Name):
             return
@@ -288,7 +301,7 @@ class Interp:
                     self.events.append(("status-store", node, dict(st), (var, env.status)))
             return
         if isinstance(v, ast.Name):
-            for pre in ("nn:", "tr:", "lk:", "vs:", "st:", "d:"):
+            for pre in ("nn:", "tr:", "lk:", "vs:", "st:", "d:", "mn:"):
                 if pre + v.id in st:
                     st[pre + var] = st[pre + v.id]
             return
@@ -651,6 +664,8 @@ class Interp:
             return None
         if isinstance(value, ast.Name):
             e = st.get(f"d:{value.id}")
+            if st.get(f"mn:{value.id}") and st.get(f"nn:{value.id}") != "NN":
+                return None  # may still be None here
             return [e] if e is not None else None
         if isinstance(value, ast.Dict):
             e = self.envelope_of_dict(value, st)
